@@ -11,9 +11,10 @@ from pyvc import spec as S
 EXPLANATION = ("gcirc: symmetry, zero for identical points, agreement of the three unit conventions, range given the haversine argument "
                "lies in [0,1]; (mu,nu) transforms: the Cartesian maps captured from the real functions are orthogonal, mutually inverse and "
                "send nu=0 to the great circle of the stripe's inclination through the node; stripe -> eta/inclination linear pieces.")
-UNDECIDED = ["numerical accuracy (relative 1e-6 from micro-arcseconds to antipodes) and NaN-freedom in floating point",
+UNDECIDED = ["numerical accuracy (relative 1e-6 from micro-arcseconds to antipodes) and NaN-freedom in floating point: only sampled against 40-digit "
+             "references on generated pairs (geometry_native, bounded), not proved",
              "haversine argument <= 1 (needed for the [0,180 deg] range): trigonometric inequality not derivable from the ground axioms used",
-             "astropy frame plumbing (ICRS <-> SDSSMuNu registration, Angle wrapping modulo 360): trusted (A5)",
+             "astropy frame plumbing (ICRS <-> SDSSMuNu registration, Angle wrapping modulo 360): trusted (A5) for the symbolic jobs, exercised by geometry_native",
              "angles_to_x / x_to_angles round trip: decided only for the polar angle (see job), azimuth modulo 360 via the arctan2 axiom"]
 
 
@@ -482,3 +483,132 @@ class GcircFormula:
         got = gcirc(a["ra1"], a["dec1"], a["ra2"], a["dec2"], units=2)
         ok = np.isfinite(got) and abs(got - ref) <= 1e-6 * max(ref, 1e-12)
         return (bool(ok), "gcirc=%r arcsec, vector formula=%r arcsec" % (float(got), float(ref)))
+
+
+# ---------------------------------------------------------------------------
+# the public entry points on concrete sky positions against independent high-precision references (bounded stand-in):
+# gives replayable inputs where the symbolic jobs can only say "engine limit", and covers arrays, aliasing and the astropy frame route
+# ---------------------------------------------------------------------------
+from pyvc.numeric import NumericJob as _NumericJob
+
+
+def _mp_sep_deg(ra1, dec1, ra2, dec2):
+    """great-circle separation in degrees from unit vectors, 40-digit arithmetic on the given doubles"""
+    import mpmath as mp
+    mp.mp.dps = 40
+    def unit(r, d):
+        r, d = mp.radians(mp.mpf(float(r))), mp.radians(mp.mpf(float(d)))
+        return (mp.cos(d) * mp.cos(r), mp.cos(d) * mp.sin(r), mp.sin(d))
+    a, b = unit(ra1, dec1), unit(ra2, dec2)
+    cr = (a[1] * b[2] - a[2] * b[1], a[2] * b[0] - a[0] * b[2], a[0] * b[1] - a[1] * b[0])
+    return float(mp.degrees(mp.atan2(mp.sqrt(cr[0] ** 2 + cr[1] ** 2 + cr[2] ** 2), a[0] * b[0] + a[1] * b[1] + a[2] * b[2])))
+
+
+@register("C18")
+class GeometryNative(_NumericJob):
+    name = "geometry_native"
+    target = ("pydl.goddard.astro:gcirc; pydl.pydlutils.coord:SDSSMuNu, munu_to_radec, radec_to_munu, stripe_to_incl, stripe_to_eta; "
+              "pydl.pydlutils.mangle:angles_to_x, x_to_angles")
+    bound = ("point pairs with separations 1e-6 arcsec .. 180 deg at declinations incl. +-90, scalar and array calling forms, the three unit conventions, "
+             "arrays re-used after the call; every stripe 0..86 with 6 sky positions each; angle arrays incl. positions within milli-arcseconds of the "
+             "equator, the RA = 0/90/180/270 planes and (at looser tolerance) the poles")
+    KINDS = ("gcirc_equals_vector_formula_symmetric_in_range_never_nan", "gcirc_unit_conventions_and_calling_forms_agree", "gcirc_leaves_its_arguments_unchanged",
+             "munu_round_trip_and_separations_preserved", "nu_zero_traces_the_inclined_great_circle_through_the_node", "angles_and_unit_vectors_are_mutual_inverses")
+    NQ, NT = 40, 400
+
+    def _cases(self, rng, n):
+        for rep in range(n):
+            pairs = []
+            for _ in range(12):
+                ra1 = rng.choice([0.0, 359.9999, rng.uniform(0, 360)])
+                dec1 = rng.choice([0.0, 90.0, -90.0, 89.9, rng.uniform(-90, 90), rng.uniform(-90, 90)])
+                kind = rng.choice(["tiny", "small", "any", "antipode", "same"])
+                if kind == "same":
+                    ra2, dec2 = ra1, dec1
+                elif kind == "antipode":
+                    ra2, dec2 = (ra1 + 180.0) % 360.0, -dec1
+                elif kind == "any":
+                    ra2, dec2 = rng.uniform(0, 360), rng.uniform(-90, 90)
+                else:
+                    sep = 10 ** rng.uniform(-6, 0) / 3600.0 if kind == "tiny" else 10 ** rng.uniform(-3, 1)
+                    th = rng.uniform(0, 2 * np.pi)
+                    dec2 = max(-90.0, min(90.0, dec1 + sep * np.sin(th)))
+                    ra2 = ra1 + sep * np.cos(th) / max(1e-6, np.cos(np.radians(dec1)))
+                pairs.append((ra1, dec1, ra2, dec2))
+            stripes = rng.sample(range(0, 87), 6 if rep else 87)[:87] if rep else list(range(87))
+            pts = [(rng.uniform(0, 360), np.degrees(np.arcsin(rng.uniform(-1, 1)))) for _ in range(6)]
+            mas = 1 / 3.6e6
+            ang = [(rng.choice([0.0, 90.0, 180.0, 270.0, 45.0, rng.uniform(0, 360)]) + rng.choice([0.0, rng.uniform(-3, 3) * mas]),
+                    rng.choice([0.0, rng.uniform(-3, 3) * mas, rng.uniform(-80, 80), rng.choice([-1, 1]) * rng.uniform(80, 89.99)])) for _ in range(16)]
+            yield dict(pairs=pairs, stripes=stripes, pts=pts, ang=ang, inp=dict(rep=rep, stripes=stripes[:8]))
+
+    def _check(self, c):
+        import astropy.units as u
+        from astropy.coordinates import ICRS
+        from pydl.goddard.astro import gcirc
+        from pydl.pydlutils.coord import SDSSMuNu, stripe_to_incl
+        from pydl.pydlutils.mangle import angles_to_x, x_to_angles
+        bad = []
+        P = np.array(c["pairs"])
+        ra1, dec1, ra2, dec2 = (P[:, k].copy() for k in range(4))
+        keep = [a.copy() for a in (ra1, dec1, ra2, dec2)]
+        d2 = np.asarray(gcirc(ra1, dec1, ra2, dec2, units=2), dtype=float)              # arcsec
+        d2r = np.asarray(gcirc(ra2, dec2, ra1, dec1, units=2), dtype=float)
+        h1, h2 = ra1 / 15.0, ra2 / 15.0
+        hk = [h1.copy(), h2.copy()]
+        d1 = np.asarray(gcirc(h1, dec1, h2, dec2, units=1), dtype=float)
+        d1b = np.asarray(gcirc(h1, dec1, h2, dec2, units=1), dtype=float)                # the same arrays again
+        d0 = np.asarray(gcirc(np.radians(ra1), np.radians(dec1), np.radians(ra2), np.radians(dec2), units=0), dtype=float)
+        if not all(np.array_equal(a, b) for a, b in zip((ra1, dec1, ra2, dec2, h1, h2), keep + hk)):
+            bad.append(("gcirc_leaves_its_arguments_unchanged", "an argument array was modified by gcirc"))
+        ref = np.array([_mp_sep_deg(*p) for p in c["pairs"]]) * 3600.0
+        tol = 1e-6 * ref + 1e-9                                                          # relative 1e-6; 1e-9 arcsec absolute floor
+        if np.isnan(d2).any() or (d2 < 0).any() or (d2 > 180 * 3600.0 * (1 + 1e-12)).any() or not np.array_equal(d2, d2r) or (np.abs(d2 - ref) > tol).any() \
+                or any(d2[k] != 0.0 for k, p in enumerate(c["pairs"]) if (p[0], p[1]) == (p[2], p[3])):
+            k = int(np.nanargmax(np.abs(d2 - ref) / (tol + 1e-300))) if not np.isnan(d2).all() else 0
+            bad.append(("gcirc_equals_vector_formula_symmetric_in_range_never_nan", "pair %s: gcirc %r arcsec, swapped %r, reference %r" % (c["pairs"][k], d2[k], d2r[k], ref[k])))
+        sc = np.array([float(gcirc(*p, units=2)) for p in c["pairs"]])
+        if not (np.allclose(d1, d2, rtol=1e-9, atol=1e-9) and np.array_equal(d1, d1b) and np.allclose(np.degrees(d0) * 3600.0, d2, rtol=1e-9, atol=1e-9) and np.allclose(sc, d2, rtol=1e-12, atol=1e-12)):
+            bad.append(("gcirc_unit_conventions_and_calling_forms_agree", "hours %s / repeated %s / radians %s / scalar %s vs degrees %s" %
+                        (d1[:3].tolist(), d1b[:3].tolist(), (np.degrees(d0) * 3600)[:3].tolist(), sc[:3].tolist(), d2[:3].tolist())))
+        # (mu, nu) through the astropy frames
+        node = 95.0
+        pra = np.array([p[0] for p in c["pts"]])
+        pdec = np.array([p[1] for p in c["pts"]])
+        for s in c["stripes"]:
+            incl = float(stripe_to_incl(s))
+            fr = SDSSMuNu(stripe=s)
+            m = ICRS(ra=pra * u.deg, dec=pdec * u.deg).transform_to(fr)
+            mu, nu = m.mu.to(u.deg).value, m.nu.to(u.deg).value
+            back = SDSSMuNu(mu=mu * u.deg, nu=nu * u.deg, stripe=s).transform_to(ICRS())
+            bra, bdec = back.ra.to(u.deg).value, back.dec.to(u.deg).value
+            sep0 = [_mp_sep_deg(pra[0], pdec[0], pra[k], pdec[k]) for k in range(1, len(pra))]
+            sep1 = [_mp_sep_deg(mu[0], nu[0], mu[k], nu[k]) for k in range(1, len(pra))]
+            dra = (bra - pra + 180.0) % 360.0 - 180.0
+            if not (np.allclose(dra * np.cos(np.radians(pdec)), 0, atol=1e-9) and np.allclose(bdec, pdec, atol=1e-9) and np.allclose(sep0, sep1, rtol=1e-9, atol=1e-10)):
+                bad.append(("munu_round_trip_and_separations_preserved", "stripe %d" % s))
+                break
+            mus = np.array([node, node + 90.0, node + 200.0, 17.0, 301.5])
+            eq = SDSSMuNu(mu=mus * u.deg, nu=np.zeros(mus.size) * u.deg, stripe=s).transform_to(ICRS())
+            e1 = np.array([np.cos(np.radians(node)), np.sin(np.radians(node)), 0.0])
+            e2 = np.array([-np.sin(np.radians(node)) * np.cos(np.radians(incl)), np.cos(np.radians(node)) * np.cos(np.radians(incl)), np.sin(np.radians(incl))])
+            want = np.cos(np.radians(mus - node))[:, None] * e1 + np.sin(np.radians(mus - node))[:, None] * e2
+            r_, d_ = np.radians(eq.ra.to(u.deg).value), np.radians(eq.dec.to(u.deg).value)
+            got = np.stack([np.cos(d_) * np.cos(r_), np.cos(d_) * np.sin(r_), np.sin(d_)], axis=1)
+            if not np.allclose(got, want, atol=1e-10):
+                bad.append(("nu_zero_traces_the_inclined_great_circle_through_the_node", "stripe %d (inclination %g deg): nu = 0 at mu = node + 90 gives Dec %g" %
+                            (s, incl, float(eq.dec.to(u.deg).value[1]))))
+                break
+        # angles <-> unit vectors
+        A = np.array(c["ang"])
+        A0 = A.copy()
+        x = angles_to_x(A, latitude=True)
+        back = x_to_angles(x, latitude=True)
+        dra = (back[:, 0] - A[:, 0] + 180.0) % 360.0 - 180.0
+        tol = np.where(np.abs(A[:, 1]) < 80.0, 1e-10, 1e-5)
+        x2 = angles_to_x(back, latitude=True)
+        if not (np.array_equal(A, A0) and (np.abs(dra) * np.cos(np.radians(A[:, 1])) <= tol).all() and (np.abs(back[:, 1] - A[:, 1]) <= tol).all()
+                and np.allclose((x ** 2).sum(axis=1), 1.0, atol=1e-14) and np.allclose(x2, x, atol=1e-9)):
+            k = int(np.argmax(np.maximum(np.abs(dra) * np.cos(np.radians(A[:, 1])), np.abs(back[:, 1] - A[:, 1])) / tol))
+            bad.append(("angles_and_unit_vectors_are_mutual_inverses", "(%.12f, %.12f) -> %s -> (%.12f, %.12f)" % (A[k, 0], A[k, 1], x[k].tolist(), back[k, 0], back[k, 1])))
+        return bad
